@@ -95,6 +95,9 @@ Projected(a) ==
            THEN tasks' \subseteq obs /\ \A t \in obs \ tasks' : t[1] = "sync_repo"
            ELSE tasks' = obs
     /\ a.odd = <<>>
+    \* the trust anchor's side of its exchanges with Top
+    /\ taq' = SetOf(a.taq) /\ tar' = SetOf(a.tar)
+    /\ taiss' = SetOf(a.taiss) /\ tapub' = SetOf(a.tapub)
 
 NoKeys == [k \in {} |-> {}]
 ObserveKeys(K) ==
@@ -148,6 +151,7 @@ Reset ==
     /\ pst' = [c \in AllCA |-> NoPst]
     /\ rst' = [c \in AllCA |-> NoRst]
     /\ kst' = [c \in AllCA |-> "none"]
+    /\ taq' = {} /\ tar' = {} /\ taiss' = {"cur"} /\ tapub' = {"cur"}
 
 \* the set-up of the top CA under the trust anchor (not modelled step by
 \* step): the recorded state must be the specification's initial state
@@ -209,7 +213,7 @@ TRollInit == IsEvent("RollInit") /\ Ok
 \* initiating a roll when no class is in the active state does nothing
 TRollInitNoop == IsEvent("RollInit") /\ Ok
           /\ rc[Args.c] # "active" /\ UNCHANGED vars /\ Projected(Line.abs)
-TRollActivate == IsEvent("RollActivate") /\ Ok
+TRollActivate == IsEvent("RollActivate") /\ Ok /\ Args.c # Top
           /\ RollActivate(Args.c) /\ Projected(Line.abs)
 TRollActivateNoop == IsEvent("RollActivate") /\ Ok
           /\ rc[Args.c] # "roll_new" /\ UNCHANGED vars /\ Projected(Line.abs)
@@ -249,11 +253,22 @@ TStep ==
            \/ /\ kind = "rc_removed" /\ c \in Sub
               /\ (RcRemoved(c) \/ (SyncDropped(c) /\ RM(c) \notin tasks'))
            \/ /\ kind = "other"
-              /\ c \in {"update_rrdp_if_needed", "sync_repo_ta", "none",
-                         "sync_ta_proxy_signer",
-                         "sync_" \o Top \o "_with_parent_ta"}
+              /\ c \in {"update_rrdp_if_needed", "none"}
               /\ UNCHANGED vars
+    /\ UNCHANGED tavars
     /\ Projected(Line.abs)
+
+\* Top's synchronisation with the trust anchor and the trust anchor's own
+\* tasks
+TStepTa ==
+    /\ IsEvent("Step") /\ Line.tk[1] = "other"
+    /\ \/ Line.tk[2] = "sync_" \o Top \o "_with_parent_ta" /\ TopSync
+       \/ Line.tk[2] = "sync_ta_proxy_signer" /\ TaCycle
+       \/ Line.tk[2] = "sync_repo_ta" /\ TaRepo
+    /\ Projected(Line.abs)
+\* the activation of a new key of Top
+TTopRollActivate == IsEvent("RollActivate") /\ Ok /\ Args.c = Top
+          /\ TopRollActivate /\ Projected(Line.abs)
 
 \* maintenance tasks run out of band, under the run's timing regime
 TRepublish == IsEvent("Republish") /\ Ok /\ Republish(regime.mftdue /\ phase = "due") /\ Projected(Line.abs)
@@ -359,14 +374,20 @@ TRelease == IsEvent("Release") /\ Ok /\ UNCHANGED vars /\ Projected(Line.abs)
 \* the harness found nothing left to do after a full refresh round
 TSettled == IsEvent("Settled") /\ UNCHANGED vars /\ Projected(Line.abs)
 
-TraceNext ==
-    \/ Reset \/ Setup
+\* (the actions of the CAs do not mention the trust anchor's variables)
+TraceNextCa ==
+    \/ Setup
     \/ TAddCa \/ TAddParent \/ TRemoveParent \/ TChildRes \/ TChildResSame \/ TChildSuspend \/ TChildSuspendNoop
     \/ TChildUnsuspend \/ TChildUnsuspendNoop \/ TChildRemove
     \/ TChildMap \/ TRoaAdd \/ TRoaDel \/ TRtrAdd \/ TRtrDel \/ TRoaDelta \/ TAspaSet \/ TAspaDel \/ TRollInit \/ TRollInitNoop
     \/ TRollActivate \/ TRollActivateNoop \/ TDeleteCa \/ TRefresh
     \/ TRefused \/ TStep \/ TRelease \/ TSettled \/ TPubRemove \/ TPubAdd \/ TRepoSyncAll
     \/ TRepublish \/ TRenew \/ TRestart \/ TDueTouch \/ TRepublishByMargin \/ TExpectByMargin \/ TRepublishByStoreMargin \/ TExpectStoreByMargin \/ TMark \/ TExpectSame \/ TExpectReissued \/ TExpectRenewed
+
+TraceNext ==
+    \/ Reset
+    \/ TraceNextCa /\ UNCHANGED tavars
+    \/ TStepTa \/ TTopRollActivate
 
 TraceSpec == TraceInit /\ [][TraceNext]_tvars
 
@@ -433,8 +454,14 @@ C0109_ServedIsContent ==
     (l > 1 /\ Rec[l - 1].ev = "Settled")
         => rp.rrdpdiff = 0 /\ rp.rsyncdiff = 0
 
+\* C04 / C09 / C15: at a settle point nothing is left to do between Top and
+\* the trust anchor (queued requests answered, answers fetched, certificates
+\* published)
+C04_TopSettled ==
+    (l > 1 /\ Rec[l - 1].ev = "Settled") => ~TaWork
+
 TraceInvariant ==
-    /\ TypeOK /\ C0109_ServedIsContent
+    /\ TypeOK /\ C0109_ServedIsContent /\ C04_TopSettled /\ C01_TopValid /\ TaExactlyOnce
     /\ C03_RevokedWhileRelevant /\ C03_CurrentNotRevoked
     /\ C14_NumbersAgree /\ C14_ValidityContainsNow /\ C14_StorePublished
     /\ C01_ManifestExact
